@@ -73,6 +73,19 @@ def check(case):
         toks = list(lex(s, pattern=pat))
         _tiling(toks, lines, 'lex(%s, %s)' % (short(s, 80), mode), f)
         got = [(t.type, t.text, t.lineno, t.offset) for t in toks]
+        # the same stream consumed through the look-ahead interface: peek, partial for-loop, next(), truth value
+        it = lex(s, pattern=pat)
+        mixed = []
+        if it:
+            it.peek()
+            for t in it:
+                mixed.append(t)
+                break
+            while it:
+                it.peek()
+                mixed.append(it.next())
+        if [(t.type, t.text, t.lineno, t.offset) for t in mixed] != got:
+            f.append(('token-iterator-modes:' + mode, '%s: list() gives %r, peek/for/next gives %r' % (short(s, 80), got[:6], [tuple(t)[:4] for t in mixed][:6])))
         if got != ref:
             f.append(('token-stream:' + mode, '%s: %r, reference scanner %r' % (short(s, 80), got[:8], ref[:8])))
         toks2 = list(lex(klines, pattern=pat))
